@@ -462,4 +462,79 @@ theorem decodeLossyFuel_scalar : ∀ (fuel : Nat) (bs : List Nat), ∀ c ∈ dec
       · exact lossyStep_scalar b rest
       · exact ih _ c hc
 
+/-! ### The specification determines the answer -/
+
+theorem validPrefix_of_prefix {l1 l2 : List Nat} (h : l1 <+: l2) (hv : ValidPrefix l2) : ValidPrefix l1 := by
+  obtain ⟨x, hx, hp⟩ := hv
+  exact ⟨x, hx, h.trans hp⟩
+
+/-- Two maximal subparts at the same position have the same extent. -/
+theorem maxSubpart_unique {A B pre rest : List Nat} (hA : A ≠ []) (hpre : pre ≠ [])
+    (he : A ++ B = pre ++ rest) (hm1 : MaxSubpart A B) (hm2 : MaxSubpart pre rest) : B = rest := by
+  rcases List.append_eq_append_iff.mp he with ⟨a', hp, hb⟩ | ⟨c', ha, hr⟩
+  · cases a' with
+    | nil => simpa using hb
+    | cons y a'' =>
+      exfalso
+      have hlen : pre.length ≠ 1 := by
+        rw [hp, List.length_append, List.length_cons]
+        have : 0 < A.length := List.length_pos_iff.mpr hA
+        omega
+      have hvp : ValidPrefix pre := by
+        rcases hm2.1 with h | h
+        · exact absurd h hlen
+        · exact h
+      have : A ++ [y] <+: pre := by
+        rw [hp]; exact ⟨a'', by simp⟩
+      exact hm1.2 y (a'' ++ rest) hb (validPrefix_of_prefix this hvp)
+  · cases c' with
+    | nil => simpa using hr.symm
+    | cons y c'' =>
+      exfalso
+      have hlen : A.length ≠ 1 := by
+        rw [ha, List.length_append, List.length_cons]
+        have : 0 < pre.length := List.length_pos_iff.mpr hpre
+        omega
+      have hvp : ValidPrefix A := by
+        rcases hm1.1 with h | h
+        · exact absurd h hlen
+        · exact h
+      have : pre ++ [y] <+: A := by
+        rw [ha]; exact ⟨c'', by simp⟩
+      exact hm2.2 y (c'' ++ B) hr (validPrefix_of_prefix this hvp)
+
+/-- `LossySpec` is functional and the decoder computes it. -/
+theorem lossySpec_unique {bs out : List Nat} (h : LossySpec bs out) :
+    ∀ fuel, bs.length ≤ fuel → decodeLossyFuel fuel bs = out := by
+  induction h with
+  | nil => intro fuel _; cases fuel <;> rfl
+  | @valid c rest out hc _ ih =>
+    intro fuel hf
+    have hpos := encodeScalar_length_pos c
+    rw [List.length_append] at hf
+    obtain ⟨f, rfl⟩ : ∃ f, fuel = f + 1 := ⟨fuel - 1, by omega⟩
+    rw [decodeLossyFuel_encode hc, ih f (by omega)]
+  | @invalid pre rest out hne hno hmax _ ih =>
+    intro fuel hf
+    rw [List.length_append] at hf
+    have hpl : 0 < pre.length := List.length_pos_iff.mpr hne
+    obtain ⟨f, rfl⟩ : ∃ f, fuel = f + 1 := ⟨fuel - 1, by omega⟩
+    cases hbs : pre ++ rest with
+    | nil =>
+      have := congrArg List.length hbs
+      simp only [List.length_append, List.length_nil] at this
+      omega
+    | cons b tl =>
+      rcases lossyStep_spec b tl with ⟨c', t, _, hsc, het⟩ | ⟨n, hs, h1, h2, _, hm⟩
+      · exfalso
+        exact hno c' hsc (by rw [hbs, het]; exact List.prefix_append _ _)
+      · simp only [decodeLossyFuel, hs]
+        have hsplit : (b :: tl).take n ++ (b :: tl).drop n = pre ++ rest := by
+          rw [List.take_append_drop, hbs]
+        have hA : (b :: tl).take n ≠ [] := by
+          obtain ⟨m, rfl⟩ : ∃ m, n = m + 1 := ⟨n - 1, by omega⟩
+          simp
+        have hdrop := maxSubpart_unique hA hne hsplit hm hmax
+        rw [hdrop, ih f (by omega)]
+
 end Rsj.Codec
